@@ -70,7 +70,7 @@ func realMain(run *hx.Run) {
 		c.validCases(run, rt)
 		// single-field corruptions
 		for _, id := range pickTargets(rt, r, corruptPerTree) {
-			c.corruptBlock(run, rt, r, id, seedTag)
+			c.corruptBlock(run, rt, r, id, seedTag, corruptionKinds)
 		}
 		// the node accepts what it builds
 		for k := 0; k < ownPerTree; k++ {
@@ -119,6 +119,20 @@ func realMain(run *hx.Run) {
 
 	for k := 0; k < knowns; k++ {
 		knownReimport(run, rng.Fork(uint64(5000+k)))
+	}
+	current = "DeriveSha differential"
+	deriveShaChecks(run, rng.Fork(6000))
+	bigs, forkCodes := 1, 3
+	if run.Thorough() {
+		bigs, forkCodes = 4, 20
+	}
+	for k := 0; k < bigs; k++ {
+		current = fmt.Sprintf("big-block tree %d", k)
+		bigBlocks(run, rng.Fork(uint64(7000+k)), k)
+	}
+	for k := 0; k < forkCodes; k++ {
+		current = fmt.Sprintf("fork-divergent-code tree %d", k)
+		forkDivergentCode(run, rng.Fork(uint64(8000+k)), k)
 	}
 }
 
